@@ -266,3 +266,51 @@ def gmx2_world(S, virtual=True, tag=""):
     broker._assets[GM_LONG] = Asset(GM_LONG, S.dec(f"{tag}wallet_WETH", 0, 10 ** 9))
     broker._assets[GM_SHORT] = Asset(GM_SHORT, S.dec(f"{tag}wallet_USDC", 0, 10 ** 12))
     return World(broker=broker, market=market, actions=actions, data=d, long=GM_LONG, short=GM_SHORT)
+
+
+# ------------------------------------------------------------------------------------------------ Squeeth
+from demeter.squeeth.market import SqueethMarket
+from demeter.squeeth import VaultKey, Vault
+from demeter.squeeth._typing import WETH as SQ_WETH, oSQTH as SQ_OSQTH
+from demeter.uniswap import UniswapMarketStatus
+
+SQ_LP = PositionInfo(-1200, 1200)      # the LP position used as vault collateral (ticks concrete: the amounts enter via contracts)
+
+
+@native
+def squeeth_world(S, vaults=(False,), lp_liquidity=True, tag=""):
+    """Broker + oSQTH/WETH UniLpMarket (token0 = WETH = quote, as on mainnet) + SqueethMarket at bar T0 (not the timestamp-less
+    test mode: TWAP prices come from get_twap_price).  vaults: one entry per vault, True = holds the LP position SQ_LP as collateral.
+    Every amount, price and the normalisation factor is symbolic."""
+    actions = []
+    broker = Broker(record_action_callback=actions.append)
+    pool = UniV3Pool(SQ_WETH, SQ_OSQTH, 0.3, SQ_WETH)
+    uni = UniLpMarket(MarketInfo("uni"), pool)
+    sq = SqueethMarket(MarketInfo("sqth", MarketTypeEnum.squeeth), uni)
+    broker.add_market(uni)
+    broker.add_market(sq)
+    uni._market_status = UniswapMarketStatus(T0, pd.Series({"inAmount0": 0, "inAmount1": 0, "currentLiquidity": S.int(f"{tag}pool_liquidity", 1, 10 ** 30),
+                                                              "closeTick": S.int(f"{tag}closeTick", -887272, 887272),
+                                                              "price": S.dec(f"{tag}pool_price_osqth_in_eth", 0, 10, lo_strict=True)}, dtype=object))
+    sq._market_status = MarketStatus(T0, pd.Series({"norm_factor": S.dec(f"{tag}norm_factor", 0, 1, lo_strict=True),
+                                                    "WETH": S.dec(f"{tag}eth_price", 0, 10 ** 6, lo_strict=True),
+                                                    "OSQTH": S.dec(f"{tag}osqth_price_in_eth", 0, 10, lo_strict=True)}, dtype=object))
+    # the trailing window of the input frame (read only by the real get_twap_price, i.e. in native evaluation)
+    sq._data = pd.DataFrame.from_dict({T0 - pd.Timedelta(minutes=6 - i): {"norm_factor": sq._market_status.data["norm_factor"],
+                                                                         "WETH": S.dec(f"{tag}eth_price_m{i}", 100, 10 ** 4) if i < 6 else sq._market_status.data["WETH"],
+                                                                         "OSQTH": S.dec(f"{tag}osqth_price_m{i}", Decimal("0.01"), 1) if i < 6 else sq._market_status.data["OSQTH"]}
+                                       for i in range(7)}, orient="index").astype(object)
+    sq._price_status = pd.Series({"WETH": sq._market_status.data["WETH"], "OSQTH": S.dec(f"{tag}osqth_usd", 0, 10 ** 6, lo_strict=True)}, dtype=object)
+    uni._price_status = sq._price_status
+    broker._assets[SQ_WETH] = Asset(SQ_WETH, S.dec(f"{tag}wallet_weth", 0, 10 ** 9))
+    broker._assets[SQ_OSQTH] = Asset(SQ_OSQTH, S.dec(f"{tag}wallet_osqth", 0, 10 ** 9))
+    keys = []
+    for i, has_lp in enumerate(vaults):
+        vk = VaultKey(i + 1)
+        keys.append(vk)
+        sq.vault[vk] = Vault(i + 1, S.dec(f"{tag}v{i}_collateral", 0, 10 ** 9), S.dec(f"{tag}v{i}_short", 0, 10 ** 9), SQ_LP if has_lp else None)
+        sq._max_vault_id = i + 1
+        if has_lp:
+            uni._positions[SQ_LP] = Position(S.dec(f"{tag}lp_pending_weth", 0, 10 ** 6), S.dec(f"{tag}lp_pending_osqth", 0, 10 ** 6),
+                                             S.int(f"{tag}lp_liquidity", 1 if lp_liquidity else 0, 10 ** 30), Decimal(1), Decimal(2), Decimal(1), True)
+    return World(broker=broker, market=sq, uni=uni, actions=actions, keys=keys, weth=SQ_WETH, osqth=SQ_OSQTH)
